@@ -20,7 +20,7 @@ import logging
 import asyncio as aio
 from typing import Any
 from collections.abc import Awaitable, Coroutine
-from .utils import gen_nonce
+from .utils import gen_nonce, timestamp
 from .encoding import BinaryStr, TypeNumber, LpTypeNumber, parse_interest, \
     parse_tl_num, parse_data, DecodeError, Name, NonStrictName, MetaInfo, \
     make_data, InterestParam, make_interest, FormalName, SignaturePtrs, parse_lp_packet, Component
@@ -50,6 +50,7 @@ class NDNApp:
     data_validator: Validator = None
     _autoreg_routes: list[tuple[FormalName, Route, Validator | None, bool, bool]]
     _prefix_register_semaphore: aio.Semaphore = None
+    _last_command_timestamp: int = 0
     logger: logging.Logger
 
     def __init__(self, face=None, keychain=None):
@@ -426,10 +427,13 @@ class NDNApp:
 
         # Fix the issue that NFD only allows one packet signed by a specific key for a timestamp number
         async with self._prefix_register_semaphore:
+            await self._wait_for_fresh_timestamp()
             try:
-                _, _, reply = await self.express_interest(
+                pending = self.express_interest(
                     name=make_command('rib', 'register', self.face, name=name),
                     lifetime=1000)
+                self._last_command_timestamp = timestamp()
+                _, _, reply = await pending
                 try:
                     ret = parse_response(reply)
                 except (DecodeError, ValueError, TypeError, IndexError, struct.error):
@@ -456,21 +460,33 @@ class NDNApp:
         """
         name = Name.normalize(name)
         del self._prefix_tree[name]
-        try:
-            _, _, reply = await self.express_interest(
-                make_command('rib', 'unregister', self.face, name=name), lifetime=1000)
+        # Fix the issue that NFD only allows one packet signed by a specific key for a timestamp number
+        async with self._prefix_register_semaphore:
+            await self._wait_for_fresh_timestamp()
             try:
-                ret = parse_response(reply)
-            except (DecodeError, ValueError, TypeError, IndexError, struct.error):
-                self.logger.error('Unregistration for %s failed: malformed response', Name.to_str(name))
+                pending = self.express_interest(
+                    make_command('rib', 'unregister', self.face, name=name), lifetime=1000)
+                self._last_command_timestamp = timestamp()
+                _, _, reply = await pending
+                try:
+                    ret = parse_response(reply)
+                except (DecodeError, ValueError, TypeError, IndexError, struct.error):
+                    self.logger.error('Unregistration for %s failed: malformed response', Name.to_str(name))
+                    return False
+                if ret['status_code'] != 200:
+                    self.logger.error('Unregistration for %s failed: %s %s',
+                                      Name.to_str(name), ret["status_code"], ret["status_text"])
+                    return False
+                return True
+            except (InterestNack, InterestTimeout, InterestCanceled, ValidationFailure):
                 return False
-            if ret['status_code'] != 200:
-                self.logger.error('Unregistration for %s failed: %s %s',
-                                  Name.to_str(name), ret["status_code"], ret["status_text"])
-                return False
-            return True
-        except (InterestNack, InterestTimeout, InterestCanceled, ValidationFailure):
-            return False
+
+    async def _wait_for_fresh_timestamp(self):
+        # Command timestamps must be strictly increasing. Wait until the clock has passed the last one used.
+        for _ in range(10):
+            if timestamp() > self._last_command_timestamp:
+                break
+            await aio.sleep(0.001)
 
     def set_interest_filter(self, name: NonStrictName, func: Route,
                             validator: Validator | None = None, need_raw_packet: bool = False,
